@@ -41,7 +41,7 @@ use serde_json::{json, Value};
 /// K1 (DESIGN §6 F13): `ContinuityStore::handoff` accepts a `summary_artifact_id` that names no
 /// artifact; without inline markdown the child then carries no resolvable summary. The comparison
 /// tolerates exactly that outcome (everything else about the request is still checked). Counted.
-const EXCLUDE_KNOWN_UNRESOLVABLE_SUMMARY: bool = true;
+const EXCLUDE_KNOWN_UNRESOLVABLE_SUMMARY: bool = false;
 
 const UNKNOWN_ARTIFACTS: [&str; 2] = [
     "000000000000000000000000000000000000000000000000000000000000feed",
